@@ -248,7 +248,7 @@ def helper_inliner(index, graph, root):
     return inline
 
 
-MAYBE_ZERO_CALLS = frozenset(("count_iter_items", "len", "count", "find", "index"))
+MAYBE_ZERO_CALLS = frozenset(("count_iter_items", "len", "count", "find", "index", "rfind"))
 
 
 def _maybe_zero(e):
@@ -331,17 +331,17 @@ def _is_method_call_on(e, aliases, base, idx_name, method):
     )
 
 
-def _step_bounds(e, path_stmts, stmt, target):
+def _step_bounds(e, path_stmts, stmt, target, refine=None):
     """(lower, upper) bound of a numeric step expression; None = unknown on that side; 'credit' = opaque"""
     if isinstance(e, ast.Constant) and isinstance(e.value, (int, float)) and not isinstance(e.value, bool):
         return (e.value, e.value)
     if isinstance(e, ast.UnaryOp) and isinstance(e.op, ast.USub):
-        b = _step_bounds(e.operand, path_stmts, stmt, target)
+        b = _step_bounds(e.operand, path_stmts, stmt, target, refine)
         if b == "credit":
             return b
         return (None if b[1] is None else -b[1], None if b[0] is None else -b[0])
     if isinstance(e, ast.BinOp) and isinstance(e.op, (ast.Add, ast.Sub)):
-        a, b = _step_bounds(e.left, path_stmts, stmt, target), _step_bounds(e.right, path_stmts, stmt, target)
+        a, b = _step_bounds(e.left, path_stmts, stmt, target, refine), _step_bounds(e.right, path_stmts, stmt, target, refine)
         if a == "credit" or b == "credit":
             return "credit"
         if isinstance(e.op, ast.Sub):
@@ -370,7 +370,7 @@ def _step_bounds(e, path_stmts, stmt, target):
                 ):
                     if _method_fact(path_stmts, stmt, seq.value.id, target, pred.attr):
                         lo = 1
-        if call_name(e) in ("find", "index"):
+        if call_name(e) in ("find", "index", "rfind"):
             return (-1, None)
         return (lo, None)
     if isinstance(e, ast.Call):
@@ -378,7 +378,19 @@ def _step_bounds(e, path_stmts, stmt, target):
         # (`num_of_spaces(s, start_idx=i)`) answers 0 when the character under the cursor is not of its kind
         return (None, None)
     if isinstance(e, ast.IfExp):
-        a, b = _step_bounds(e.body, path_stmts, stmt, target), _step_bounds(e.orelse, path_stmts, stmt, target)
+        # `len(rest) if k == -1 else k` with k = rest.find(c): in the arm where the not-found sentinel is excluded, k >= 0
+        lo_b, lo_o = dict(refine or {}), dict(refine or {})
+        t = e.test
+        if isinstance(t, ast.Compare) and len(t.ops) == 1 and isinstance(t.left, ast.Name):
+            try:
+                rhs = ast.literal_eval(t.comparators[0])
+            except Exception:
+                rhs = None
+            if rhs == -1 and isinstance(t.ops[0], ast.Eq) or rhs == 0 and isinstance(t.ops[0], ast.Lt):
+                lo_o[t.left.id] = 0
+            if rhs == -1 and isinstance(t.ops[0], (ast.NotEq, ast.Gt)) or rhs == 0 and isinstance(t.ops[0], ast.GtE):
+                lo_b[t.left.id] = 0
+        a, b = _step_bounds(e.body, path_stmts, stmt, target, lo_b), _step_bounds(e.orelse, path_stmts, stmt, target, lo_o)
         if a == "credit" or b == "credit":
             return "credit"
         return (
@@ -386,7 +398,26 @@ def _step_bounds(e, path_stmts, stmt, target):
             None if a[1] is None or b[1] is None else max(a[1], b[1]),
         )
     if isinstance(e, ast.Name):
-        # a plain variable as (part of) a step: its sign is whatever was computed into it
+        # a plain variable as (part of) a step: what was computed into it on this path — a length or a count (>= 0),
+        # the result of find / index (>= -1, or >= 0 where the not-found sentinel has been excluded), a constant;
+        # otherwise its sign is unknown
+        last = None
+        for s_ in path_stmts:
+            if s_ is stmt:
+                break
+            if isinstance(s_, (ast.Assign, ast.AnnAssign)) and s_.value is not None:
+                for t_ in s_.targets if isinstance(s_, ast.Assign) else [s_.target]:
+                    if isinstance(t_, ast.Name) and t_.id == e.id:
+                        last = s_.value
+            elif isinstance(s_, ast.AugAssign) and isinstance(s_.target, ast.Name) and s_.target.id == e.id:
+                last = False
+        if last is not None and last is not False:
+            b = _step_bounds(last, path_stmts, stmt, target, refine) if not isinstance(last, ast.Name) else (None, None)
+            if b != "credit":
+                lo = b[0]
+                if refine and e.id in refine and (lo is None or lo < refine[e.id]) and isinstance(last, ast.Call) and call_name(last) in ("find", "index", "rfind"):
+                    lo = refine[e.id]
+                return (lo, b[1])
         return (None, None)
     return "credit"
 
